@@ -85,7 +85,11 @@ def _generate(rng, index, tier, extra):  # pylint: disable=unused-argument
         trailing = ''
         if rng.random() < 0.5:
             trailing = junk if rng.random() < 0.6 else rng.choice(seeds or bad).hex()
-        return {'kind': 'dgram', 'cls': path, 'hex': raw.hex(), 'faults': faults, 'trailing': trailing, 'junk': junk}
+        doc = {'kind': 'dgram', 'cls': path, 'hex': raw.hex(), 'faults': faults, 'trailing': trailing, 'junk': junk}
+        if rng.random() < 0.06:
+            # a receive buffer that already holds a lot of what follows (tens of KiB after the first unit)
+            doc['pad'] = [rng.choice((5000, 17000, 18432, 18433, 20000, 40000, 66000, 140000)), rng.getrandbits(32)]
+        return doc
     channel = rng.choice(workload.CHANNELS)
     discards = []
     records = [channel.make(rng, discards) for _ in range(rng.choice((2, 2, 3, 4, 6)))]
@@ -116,13 +120,17 @@ def _exec_dgram(doc, res):
     cls = corpus.resolve(doc['cls']) or core.get_class(doc['cls'])
     raw = wire.apply_faults(bytes.fromhex(doc['hex']), doc['faults'], res)
     raw += bytes.fromhex(doc.get('trailing', ''))
+    if doc.get('pad'):
+        import random as _random
+        raw += _random.Random(doc['pad'][1]).randbytes(doc['pad'][0])
+        res.stats['probe.buffer_over_18k_after_first_unit'] += doc['pad'][0] > 18432
     framer_name = FRAMING_CLASSES.get(doc['cls'])
     n = oracles.probe_c03(cls, raw, res, framer_name, framing=framer_name is not None, junk=bytes.fromhex(doc['junk']))
     res.sim_events += 1
     outcome = 'accepted' if n is not None else 'rejected'
     fired = tuple(sorted(k for k in res.stats if k.startswith('fault.') and res.stats[k]))
     res.sched_sig = ('dgram', doc['cls'].rsplit('.', 1)[1], fired, outcome, bool(doc.get('trailing')),
-                     n is not None and n < len(raw))
+                     n is not None and n < len(raw), bool(doc.get('pad')))
     res.nontrivial = bool(fired) or (n is not None and n < len(raw))
     res.stats['runs.dgram'] += 1
     if n is not None and n < len(raw):
@@ -193,6 +201,8 @@ def shrink(doc, sig, budget):
         doc['faults'] = core.ddmin_list(doc['faults'], lambda c: test_with(faults=c), budget)
         if doc.get('trailing') and test_with(trailing=''):
             doc['trailing'] = ''
+        if doc.get('pad') and test_with(pad=None):
+            doc['pad'] = None
         if not doc['faults']:
             keep = 0
             doc['hex'] = core.shrink_bytes(bytes.fromhex(doc['hex']), lambda c: test_with(hex=c.hex()), budget, keep).hex()
@@ -216,9 +226,10 @@ def check(tier, seed):
     began = time.time()
     me = __import__('simverif.props.c03', fromlist=['x'])
     extra = prepare(tier)
+    histories = core.history_batch(me, seed, tier, extra)      # first: this process has executed no run yet
     core.determinism_selftest(me, seed, tier, extra, count=40)
     n_runs, wall = BUDGET[tier]
-    batch = core.run_batch(me, seed, tier, n_runs, wall, extra)
+    batch = core.merge_batches([core.run_batch(me, seed, tier, n_runs, wall, extra), histories])
     coverage = core.coverage_from_batch(
         batch, RULE, fault_kinds=wire.FAULT_KINDS,
         probes=('accepted_with_trailing_bytes', 'corrupted_input_accepted', 'next_record_already_in_buffer'),
